@@ -406,7 +406,7 @@ class MeasuredValue(ExperimentalValue):
             raise TypeError("Cannot assign a {} to the error!".format(type(error).__name__))
         if error < 0:
             raise ValueError("The error must be a positive real number!")
-        self._error = error
+        self._error = float(error)  # stored as a float, as the constructor does
 
     @property
     def relative_error(self):
